@@ -55,6 +55,20 @@ def prepare_work():
 		return
 	WORK.mkdir(parents=True, exist_ok=True)
 	subprocess.run(['rsync', '-a', '--delete', '--exclude', 'Cases', '--exclude', '.lock', f'{VERIF}/coq/', f'{COQ}/'], check=True)
+	if os.environ.get('VERIF_COQ_FROM_HEAD'):
+		# trial runs while somebody is editing proofs: use the committed version of every tracked coq file that is modified
+		changed = subprocess.run(['git', '-C', str(VERIF), 'diff', '--name-only', 'HEAD', '--', 'coq'], capture_output=True, text=True, check=False).stdout.split()
+		untracked = subprocess.run(['git', '-C', str(VERIF), 'ls-files', '--others', '--exclude-standard', '--', 'coq'], capture_output=True, text=True, check=False).stdout.split()
+		for name in changed:
+			blob = subprocess.run(['git', '-C', str(VERIF), 'show', f'HEAD:{name}'], capture_output=True, check=False)
+			target = WORK / name
+			if blob.returncode == 0:
+				target.write_bytes(blob.stdout)
+			elif target.exists():
+				target.unlink()
+		for name in untracked:
+			if name.endswith('.v') and (WORK / name).exists():
+				(WORK / name).unlink()
 
 
 def scratch_dir(tag):
